@@ -59,6 +59,17 @@ func init() {
 		},
 	})
 	core.Register(&core.Property{
+		ID:         "C09",
+		Decided:    "Decides that stream-mode scanners never use a window pointer, slice or loaded byte after a call that may refill the window without re-taking it, that the literal readers compare a byte again after a refill, that the io.Reader's error is kept, and that buffer and stream scanners classify value-start bytes alike; it does not decide equality of results for any chunking.",
+		NotCovered: "equality of decoded values per chunking, InputOffset/More/Token arithmetic, concatenated documents, strings handed out before a later refill.",
+		Rules: []*core.Rule{
+			{ID: "C09.R1", Title: "forward may-analysis over each stream-mode function's CFG: after a node that may reach (*Stream).read, every variable taken from the window (bufptr/stat pointer, buf slice, loaded byte) is stale until reassigned; no stale variable is read", Covers: "a refill in the middle of a token does not change the result", Min: 12, Run: c09r1},
+			{ID: "C09.R2", Title: "in nullBytes/trueBytes/falseBytes each `s.char() != K` whose body refills is a loop condition or is followed by a second comparison with K before the cursor advances", Covers: "a literal split across chunks is still checked letter by letter", Min: 10, Run: c09r2},
+			{ID: "C09.R3", Title: "the error result of r.Read in (*Stream).read flows to a Stream field or a return value", Covers: "a reader error other than EOF is reported, never turned into a decoded value", Min: 1, Run: c09r3},
+			{ID: "C09.R4", Title: "for 13 buffer/stream scanner pairs the value-start dispatch sends the same non-NUL byte values to an error and names the same bytes in its case labels", Covers: "both modes give the same accept/reject verdict at value start", Min: 20, Run: c09r4},
+		},
+	})
+	core.Register(&core.Property{
 		ID:         "C12",
 		Decided:    "Decides that the caller's input reaches only len() and the source side of a copy in the Unmarshal entry points, that every slice a Marshal entry point returns is freshly made and filled before the pooled context is released, that in stream mode UnmarshalJSON/UnmarshalText receive fresh copies, and that in-place unescaping only ever rewrites memory the library allocated; it does not decide absence of aliasing for every value.",
 		NotCovered: "that the stream window never moves over strings already handed out, RawMessage/[]byte destinations in stream mode, what user callbacks do with the slices they get.",
